@@ -93,6 +93,11 @@ Fresh(e) == [k |-> "fresh", e |-> e]
 ABox == [simple |-> {Eff, IncA, Y(Fresh([k |-> "lit", v |-> 1])), Y(Fresh(VarA))},
          inits |-> {None}, posts |-> {None, Y(Fresh([k |-> "lit", v |-> 1]))}, conds |-> {T0},
          ifinits |-> {None}, kinds |-> {"if", "for", "block"}, jumps |-> {"break", "continue"}, ranges |-> {}]
+\* nested function literals (C01): an immediately invoked closure and a generator literal nested in the
+\* generator that captures its variables, in the control alphabet
+ALit == [simple |-> {Eff, IncA, Y(VarA), [k |-> "iife", id |-> 0], [k |-> "nestgen", id |-> 0]},
+         inits |-> {None}, posts |-> {None, PAssign, Y(VarA)}, conds |-> {T0, None}, ifinits |-> {None},
+         kinds |-> {"if", "switch", "for"}, jumps |-> {"break", "continue", "return"}, ranges |-> {}]
 ACtlX == [ACtl EXCEPT !.kinds = @ \cup {"switchd", "tswitch", "notag"}]
 \* range loops inside generators (C04): every collection kind x variable forms x body shapes
 RangeHdr(kind, xf, kf, vf) == [k |-> "range", id |-> 0, kind |-> kind, xf |-> xf, kf |-> kf, vf |-> vf, wrap |-> "none", body |-> <<>>]
@@ -110,7 +115,7 @@ ARange == [simple |-> {Y(VarK), Y(VarV), Mut("sset", 2), Mut("sapp", 0), Mut("st
            inits |-> {None}, posts |-> {None}, conds |-> {T0}, ifinits |-> {None},
            kinds |-> {"range", "if"}, jumps |-> {"break", "continue"}, ranges |-> Ranges]
 ARangeX == [ARange EXCEPT !.simple = @ \cup {Mut("nset", 0), Mut("strset", 0), Mut("sset", 0), Mut("aset", 0)}]
-A == CASE Family = "range" -> ARange [] Family = "rangex" -> ARangeX [] Family = "ctl" -> ACtl [] Family = "scope" -> AScope [] Family = "yf" -> AYf [] Family = "yfl" -> AYfL [] Family = "panic" -> APanic [] Family = "ctlx" -> ACtlX [] Family = "eff" -> AEff [] Family = "expr" -> AExpr [] Family = "jump" -> AJump [] Family = "opt" -> AOpt [] Family = "by" -> ABy [] Family = "optx" -> AOptX [] Family = "byx" -> AByX [] Family = "unsup" -> AUnsup [] Family = "box" -> ABox
+A == CASE Family = "range" -> ARange [] Family = "rangex" -> ARangeX [] Family = "ctl" -> ACtl [] Family = "scope" -> AScope [] Family = "yf" -> AYf [] Family = "yfl" -> AYfL [] Family = "panic" -> APanic [] Family = "ctlx" -> ACtlX [] Family = "eff" -> AEff [] Family = "expr" -> AExpr [] Family = "jump" -> AJump [] Family = "opt" -> AOpt [] Family = "by" -> ABy [] Family = "optx" -> AOptX [] Family = "byx" -> AByX [] Family = "unsup" -> AUnsup [] Family = "box" -> ABox [] Family = "lit" -> ALit
 
 \* Go scoping: `a := ...` at most once per block and never in the function's top block
 \* (a is a parameter there: "no new variables on left side of :=")
